@@ -180,7 +180,9 @@ def apply_resultpath(input, result, path="$"):
         if isinstance(target, list):
             try:
                 i = int(key)
-                target[i] = update_path(target[i], keys, default)
+                value = update_path(target[i], keys, default)
+                target = list(target)  # Update a copy, the input may be shared
+                target[i] = value
             except (ValueError, IndexError) as e:
                 raise ResultPathMatchFailure(e)
         elif isinstance(target, dict):
@@ -190,7 +192,9 @@ def apply_resultpath(input, result, path="$"):
                     "Object index {} is not a valid key string".format(key)
                 )
             except ValueError:
-                target[key] = update_path(target.get(key, {}), keys, default)
+                value = update_path(target.get(key, {}), keys, default)
+                target = dict(target)  # Update a copy, the input may be shared
+                target[key] = value
         else:
             raise ResultPathMatchFailure(
                 "Cannot use key {} to index a primitive type".format(key)
